@@ -241,18 +241,31 @@ def render(doc):
 _CS = None
 
 
+def quiet():
+    """armi's HEADER log level lies above CRITICAL: silence it too (refusals are exercised on purpose)."""
+    import logging
+    import os
+    import warnings
+
+    armi_ready()
+    if not os.environ.get("VERIF_ARMI_LOG"):
+        logging.disable(1000)
+        warnings.filterwarnings("ignore", category=RuntimeWarning, module=r"armi\..*")
+
+
 def default_settings():
     global _CS
-    armi_ready()
     if _CS is None:
+        quiet()
         from armi import settings
 
         _CS = settings.Settings()
+        quiet()
     return _CS
 
 
 def load_blueprints(text):
-    armi_ready()
+    quiet()
     from armi.reactor.blueprints import Blueprints
 
     return Blueprints.load(io.StringIO(text))
@@ -284,7 +297,7 @@ def project_composition(c):
     md = {n: v * nuclideBases.byName[n].weight / K for n, v in nd.items()}
     rho = sum(md.values())
     ntot = sum(nd.values())
-    out = {"nd": nd, "md": md, "rho": rho,
+    out = {"nd": nd, "md": md, "rho": rho, "nuclides": sorted(nd),
            "nf": {n: v / ntot for n, v in nd.items()} if ntot else {},
            "mf": {n: v / rho for n, v in md.items()} if rho else {}}
     u5, u8 = md.get("U235", 0.0), md.get("U238", 0.0)
